@@ -91,12 +91,20 @@ def tables():
         DirectedEdge: {"v1side": "", "v2side": ">"},
         UnDirectedEdge: {"v1side": "", "v2side": ""},
     }
+    t9 = {
+        # PlantUML's crow's-foot / brace arrow heads: legal end strings that contain { } | and o
+        Vertex: dict(base_v),
+        DirectedEdge: {"v1side": "||", "v2side": "o{"},
+        zoo.DSub: {"v1side": "}o", "v2side": "||"},
+        UnDirectedEdge: {"v1side": "}|", "v2side": "|{"},
+        zoo.USub: {"v1side": "{", "v2side": "}"},
+    }
     return {"default": t0, "overrides": t1, "grandparents": t2, "userfunc": t3, "otherlinks": t4, "multi": t5, "idattr": t6,
-            "fmtspec": t7, "sametitle": t8}
+            "fmtspec": t7, "sametitle": t8, "crowsfoot": t9}
 
 
 TABLE_ALLOWS_OTHER = {"default": False, "overrides": False, "grandparents": True, "userfunc": False, "otherlinks": True,
-                      "multi": False, "incremental": False, "idattr": False, "fmtspec": False, "sametitle": False}
+                      "multi": False, "incremental": False, "idattr": False, "fmtspec": False, "sametitle": False, "crowsfoot": False}
 
 
 def nearest(cls, table):
@@ -291,7 +299,7 @@ def run(ctx):
                       "uni": list(range(nbig)), "big": True})
     # per shard; the default-style tables ('.+' renders every dir() entry of every vertex, character by character)
     # dominate the cost: ~17 ms per rendering
-    n_random = 1000 if quick else 1200
+    n_random = ctx.n(1000 if quick else 1200)
     k = 0
     for n in range(len(specs) + n_random):
         if n < len(specs):
